@@ -23,10 +23,10 @@ Proof. intros A B C [sh H]. exists sh. rewrite A, B, C. exact H. Qed.
 
 Lemma shelled_apply f E0 n0 t co t' : Shelled E0 n0 t -> apply f t co = Some t' -> Shelled E0 n0 t'.
 Proof.
-  intros S A. destruct co as [[kind key dig pay ok|key dig|id dig changes ok] oid]; simpl in A.
+  intros S A. destruct co as [[kind key dig pay ok|named key dig|id dig changes ok] oid]; simpl in A.
   - destruct oid; [|discriminate]. destruct ok; [|discriminate]. inversion A; subst.
     eapply shelled_same_store; eauto.
-  - destruct (if f_ensure_staged f then staged_tuple key (t_staged t) else None).
+  - destruct (if f_ensure_staged f then staged_tuple f key (t_staged t) else None).
     + inversion A; subst; auto.
     + destruct (committed_tuple key (t_store t)).
       * inversion A; subst; auto.
@@ -58,7 +58,7 @@ Qed.
 Lemma shelled_declare E0 n0 cs : forall t, Shelled E0 n0 t -> Shelled E0 n0 (fst (declare t cs)).
 Proof.
   induction cs as [|c cs IH]; intros t S; simpl; auto.
-  destruct c as [kind key dig pay ok|key dig|id dig changes ok].
+  destruct c as [kind key dig pay ok|named key dig|id dig changes ok].
   - pose proof (shelled_mint _ _ _ kind S) as S1. unfold mint in S1. simpl in S1.
     specialize (IH _ S1). destruct (declare _ cs) as [t2 r]. exact IH.
   - specialize (IH t S). destruct (declare t cs) as [t2 r]. exact IH.
@@ -123,19 +123,32 @@ Qed.
 (* Without the staged lookup in ENSURE (the code as it was), a refused statement commits part of itself. *)
 Theorem tx_refused_noop_refuted_without_staged_lookup :
   exists s stmt s',
-    run_statement (mkF true true true false) false 0 s stmt = (OWriteFailed, s')
+    run_statement (mkF true true true false true) false 0 s stmt = (OWriteFailed, s')
     /\ resp_of OWriteFailed = Refused
     /\ List.length (filter (fun e => negb (e_state e =? PENDING)) (s_elems s')) = 3%nat
     /\ List.length (s_vlog s') = 3%nat /\ s_journal s' = [] /\ s_elems s = [].
 Proof.
-  exists (mkS [] [] [] 0 0), [CCreate 1 0 11 0 true; CCreate 1 0 12 0 true; CEnsure 77 13; CEnsure 77 14].
+  exists (mkS [] [] [] 0 0), [CCreate 1 0 11 0 true; CCreate 1 0 12 0 true; CEnsure true 77 13; CEnsure true 77 14].
+  eexists. vm_compute. repeat split; reflexivity.
+Qed.
+
+(* With a staged lookup that walks only what the block's handles name, an anonymous ENSURE is invisible to
+   a later ENSURE of the same tuple: the statement is refused in the write loop with rows already written. *)
+Theorem tx_refused_noop_refuted_with_handle_only_lookup :
+  exists s stmt s',
+    run_statement (mkF true true true true false) false 0 s stmt = (OWriteFailed, s')
+    /\ resp_of OWriteFailed = Refused
+    /\ List.length (filter (fun e => negb (e_state e =? PENDING)) (s_elems s')) = 3%nat
+    /\ List.length (s_vlog s') = 3%nat /\ s_journal s' = [] /\ s_elems s = [].
+Proof.
+  exists (mkS [] [] [] 0 0), [CCreate 1 0 11 0 true; CCreate 1 0 12 0 true; CEnsure false 77 13; CEnsure true 77 14].
   eexists. vm_compute. repeat split; reflexivity.
 Qed.
 
 (* Without the discard at a refused commit check (the code as it was), shells stay behind. *)
 Theorem tx_refused_commit_left_shells_without_discard :
   exists s stmt s',
-    run_statement (mkF true false true true) false 0 s stmt = (OCommitRefused, s')
+    run_statement (mkF true false true true true) false 0 s stmt = (OCommitRefused, s')
     /\ s_elems s = [] /\ List.length (s_elems s') = 2%nat.
 Proof.
   exists (mkS [] [] [] 0 0), [CCreate 1 5 11 0 true; CCreate 1 5 12 0 true].
